@@ -3,8 +3,8 @@
  * file, You can obtain one at http://mozilla.org/MPL/2.0/. */
 
 use super::{
-    ArgEntry, Declaration, Error, FuncArgDetails, FuncArgDetailsKey, FuncResolutionKind, Namespace,
-    PolytypeDeclaration, StaticsContext,
+    ArgEntry, Declaration, DefaultArgState, Error, FuncArgDetails, FuncArgDetailsKey,
+    FuncResolutionKind, Namespace, PolytypeDeclaration, StaticsContext,
 };
 use crate::ast::{
     ArgMaybeAnnotated, AstNode, Expr, ExprKind, FileAst, FuncCallArg, FuncDef, Identifier,
@@ -377,6 +377,8 @@ fn update_function_arg_info(
         arg_indices.insert(name.v.clone());
         match default_val {
             Some(default_arg) => {
+                ctx.default_arg_values
+                    .insert(default_arg.id, DefaultArgState::NotBeingChecked);
                 default_args.insert(i, default_arg);
             }
             None => {
